@@ -311,3 +311,86 @@ Fixpoint tas_exec (s : tas) (p : list tas_label) : option tas :=
 Lemma refuted_split_test_and_set :
   exists s, tas_exec {| flag := false; saw := [None; None]; winners := 0 |} [TLoad 0; TLoad 1; TStore 0; TStore 1] = Some s /\ winners s = 2.
 Proof. eexists. split; [vm_compute; reflexivity|]. reflexivity. Qed.
+
+(* ---------------- several activations of one node ---------------- *)
+Lemma gexec_snoc b : forall p s l,
+  gexec b s (p ++ [l]) = match gexec b s p with Some s' => gstep b s' l | None => None end.
+Proof.
+  induction p as [|x p IH]; intros s l; cbn [app gexec].
+  - destruct (gstep b s l); reflexivity.
+  - destruct (gstep b s x); [apply IH|reflexivity].
+Qed.
+
+Lemma greach_step b n g l g' : greach b n g -> gstep b g l = Some g' -> greach b n g'.
+Proof. intros [p Hp] Hs. exists (p ++ [l]). rewrite gexec_snoc, Hp. exact Hs. Qed.
+
+Lemma greach_init b n : greach b n (ginit n).
+Proof. exists []. reflexivity. Qed.
+
+Lemma nth_error_upd {A} (l : list A) i x : forall j y, nth_error (upd l i x) j = Some y ->
+  (j = i /\ y = x /\ i < length l) \/ (j <> i /\ nth_error l j = Some y).
+Proof.
+  revert i. induction l as [|a l IH]; intros i j y H.
+  - destruct i, j; discriminate.
+  - destruct i as [|i], j as [|j]; cbn in H.
+    + inversion H; subst. left. cbn. repeat split; lia.
+    + right. split; [lia|exact H].
+    + right. split; [lia|exact H].
+    + destruct (IH i j y H) as [[E [E' L]]|[E E']].
+      * left. cbn. repeat split; try lia; assumption.
+      * right. split; [lia|exact E'].
+Qed.
+
+Definition MInv (b : bool) (k n : nat) (s : mst) : Prop :=
+  length (acts s) = k /\ forall a g, nth_error (acts s) a = Some g -> greach b n g.
+
+Lemma minv_init b k n : MInv b k n (minit k n).
+Proof.
+  split; [apply repeat_length|]. intros a g H. cbn in H.
+  apply nth_error_In, repeat_spec in H. subst. apply greach_init.
+Qed.
+
+Lemma minv_step b k n s al s' : MInv b k n s -> mstep true b s al = Some s' -> MInv b k n s'.
+Proof.
+  intros [HL HR] H. unfold mstep in H.
+  destruct (nth_error (acts s) (fst al)) as [g|] eqn:E; [|discriminate].
+  destruct (gstep b g (snd al)) as [g'|] eqn:Eg; [|discriminate].
+  inversion H; subst s'; clear H. split; cbn.
+  - rewrite upd_length. exact HL.
+  - intros a x Hx. destruct (nth_error_upd _ _ _ _ _ Hx) as [[_ [Ex _]]|[_ Ho]].
+    + subst x. eapply greach_step; [apply (HR _ _ E)|exact Eg].
+    + apply (HR _ _ Ho).
+Qed.
+
+Lemma minv_exec b k n : forall p s s', MInv b k n s -> mexec true b s p = Some s' -> MInv b k n s'.
+Proof.
+  induction p as [|l p IH]; intros s s' HI H; cbn in H.
+  - inversion H; subst; exact HI.
+  - destruct (mstep true b s l) as [s1|] eqn:E; [|discriminate].
+    eapply IH; [eapply minv_step; eassumption|exact H].
+Qed.
+
+(* with a flag per activation every activation is a gateway of its own: whatever the other activations do, and in
+   whatever order the steps of all of them are scheduled, it is in a state the single gateway can reach *)
+Theorem activations_independent b k n s : mreach true b k n s ->
+  length (acts s) = k /\ forall a g, nth_error (acts s) a = Some g -> greach b n g.
+Proof. intros [p Hp]. exact (minv_exec b k n p _ _ (minv_init b k n) Hp). Qed.
+
+(* one flag for the node: two activations, the event of alternative 0 is delivered to both; the first activation's
+   token wins, the second activation's token finds the flag taken: that activation has no winner, its other
+   alternative stays parked, nothing can ever move there again *)
+Definition path_shared_flag : list (nat * glabel) := [(0, Deliver 0); (1, Deliver 0); (0, Cas 0); (1, Cas 0)].
+
+Lemma refuted_shared_flag : exists s g, mexec false true (minit 2 2) path_shared_flag = Some s /\
+  nth_error (acts s) 1 = Some g /\ aget g 0 = Lost /\ aget g 1 = Parked /\
+  cnt isW (alts g) + cnt isC (alts g) = 0 /\ conts g = 0 /\
+  forall l, internal l = true -> mstep false true s (1, l) = None.
+Proof.
+  eexists. eexists. split; [vm_compute; reflexivity|]. split; [reflexivity|].
+  repeat split.
+  intros l Hl. destruct l as [i|i| |j|]; try discriminate.
+  - destruct i as [|[|[|i]]]; reflexivity.
+  - reflexivity.
+  - destruct j as [|[|[|j]]]; reflexivity.
+  - reflexivity.
+Qed.
